@@ -291,7 +291,7 @@ func PreparedStoreCase(seed int64, workDir string) *HistResult {
 	for i := 0; i < n; i++ {
 		sp := specs[r.Intn(len(specs))]
 		id, _ := uuid.NewV4()
-		created := base.Add(time.Duration(r.Int63n(int64(100*time.Hour)))).In(zones[r.Intn(len(zones))])
+		created := base.Add(time.Duration(r.Int63n(int64(100 * time.Hour)))).In(zones[r.Intn(len(zones))])
 		pj := store.PersistedJob{ID: id, Pipeline: sp.Name, Created: created, User: []string{"", "j.doe", "ü\"ser\\"}[r.Intn(3)], Variables: gen.RandVars(r)}
 		state := r.Intn(6) // 0 waiting, 1 running, 2 completed ok, 3 completed failed, 4 canceled unstarted, 5 running-with-all-tasks-done
 		if state != 0 && state != 4 {
